@@ -12,6 +12,7 @@ import numpy as np
 
 from tflv import core
 from tflv import findings
+from tflv import modes
 from tflv import monitors
 from tflv.gen import pwl as gen
 
@@ -180,7 +181,8 @@ def gen_cases(ctx):
       kclass, w = gen.pwl_kernel(rng, nk, cfg["units"], cfg["mono"])
       w = w.tolist()
     yield {"kind": entry, "cfg": cfg, "mode": mode, "kclass": kclass, "w": w,
-           "kseed": int(rng.randint(2**31 - 1)), "labels": labels}
+           "kseed": int(rng.randint(2**31 - 1)), "labels": labels,
+           "exec": modes.pick(rng, (0.7, 0.3, 0.0), allow=("eager", "graph"))}
 
 
 def _kernel(case):
@@ -211,25 +213,39 @@ def run_case(ctx, case):
   feasible_in = in_viol <= 1e-6 * scale_in
   _state["fin"] = None
   kind = case["kind"]
+  ex = case.get("exec", "eager")
+  ctx.cls("exec:" + ex)
   if kind == "constraint":
     c = pl.PWLCalibrationConstraints(
         monotonicity=cfg["mono"], convexity=cfg["conv"], lengths=tf.constant(lengths32),
         output_min=omin, output_max=omax, output_min_constraints=cmn, output_max_constraints=cmx,
         num_projection_iterations=cfg["iters"])
-    out = c(tf.constant(w)).numpy()
+    if ex != "eager":
+      c(tf.constant(w))     # eager pass only feeds the _finalize_constraints hook used to attribute failures
+    out = modes.call(tf, ex, c, tf.constant(w)).numpy()
     site = "PWLCalibrationConstraints.__call__"
     fails = judge(ctx, site, cfg, w, out, _state["fin"])
     if not fails and input_violation(cfg, out) <= 1e-6 * core.scale_of(out):
-      out2 = c(tf.constant(out)).numpy()
+      out2 = modes.call(tf, ex, c, tf.constant(out)).numpy()
       d = float(np.abs(out2.astype(np.float64) - out).max())
       t = 1e-4 * core.scale_of(out, [b for b in (omin, omax) if b is not None])
       ctx.check("feasible-unchanged", d <= t, "constraint moved its own feasible output by %.3g (tol %.3g)" % (d, t),
                 info={"entry": site, "moved": d}, ratio=d / t)
   elif kind == "lib":
-    out = plib.project_all_constraints(
-        weights=tf.constant(w), monotonicity=cfg["mono"], output_min=omin, output_max=omax,
-        output_min_constraints=cmn, output_max_constraints=cmx, convexity=cfg["conv"],
-        lengths=tf.constant(lengths32), num_projection_iterations=cfg["iters"]).numpy()
+    # lengths is created outside the traced function, as the layer does (an eager tensor captured by the graph).  A
+    # tf.constant created *inside* the trace lets TF 2.21's grappler remapper rewrite Maximum(Unpack:1, Mul(Unpack:0,
+    # Const)) in _approximately_project_convexity into LeakyRelu(Unpack:0) - a TensorFlow miscompilation (DESIGN 10.3),
+    # not something tensorflow/lattice does or can be judged for.
+    lengths_t = tf.constant(lengths32)
+
+    def proj(t):
+      return plib.project_all_constraints(
+          weights=t, monotonicity=cfg["mono"], output_min=omin, output_max=omax,
+          output_min_constraints=cmn, output_max_constraints=cmx, convexity=cfg["conv"],
+          lengths=lengths_t, num_projection_iterations=cfg["iters"])
+    if ex != "eager":
+      proj(tf.constant(w))
+    out = modes.call(tf, ex, proj, tf.constant(w)).numpy()
     site = "project_all_constraints"
     judge(ctx, site, cfg, w, out, _state["fin"])
   else:
@@ -277,4 +293,4 @@ def run_case(ctx, case):
               info={"entry": site, "moved": d, "input_violation": in_viol}, ratio=d / t)
   constrained = bool(cfg["mono"] or cfg["conv"] or omin is not None or omax is not None)
   work = in_viol > core.REL_TOL * scale_in
-  return constrained and (work or feasible_in), core.digest([cfg, kind, core.arr_digest(w)])
+  return constrained and (work or feasible_in), core.digest([cfg, kind, ex, core.arr_digest(w)])
